@@ -669,5 +669,3 @@ def replay(ck, path):
     res = runner.run_batch(exe, [("replay", r.get("script", []))])
     print("\n".join(res["replay"]["out"]))
     ck.evaluations = 1
-    ck.nontriv(1)
-    ck.nontriv(2)
